@@ -72,6 +72,11 @@ CLAIMED = {
    text=('Theorems for all D, P, shapes and every basic index expression (ints, negative ints, slices with steps, Ellipsis, newaxis): UTPM indexing is the same index map applied to every coefficient slice, its elements are '
          'elements (cells) of the parent, and UTPM.sum(axis) addresses the coefficient axis NumPy addresses on a slice. The indexing model itself is validated against real NumPy (random + exhaustive small expressions). '
          'reshape/transpose/tile/diag/tri*/trace/conj/real/imag/fft/zeros/ones/symvec/vecsym and item assignment (UTPM, ndarray, scalar right-hand sides, write-through, shares_memory) are checked slice-wise against NumPy (partial: no theorem).')),
+ 'C09': dict(
+   technique='Lean 4 theorems (extraction algebra of the Hessian / Hessian-vector drivers for every N; seed tables by kernel evaluation for N<=8) + exact analytic oracle on polynomial programs',
+   text=('Theorems for every N and every symmetric H: 2 c2(e_n) = H_nn, c2(e_n+e_m) - c2(e_n) - c2(e_m) = H_nm, -c2(e_n) + c2(v+e_n) - c2(v) = (Hv)_n (the formulas of extract_hessian / extract_hess_vec); the triangular '
+         'seed layout of init_hessian and the 2N+1 directions of init_hess_vec are kernel-checked for N<=8 (general N not proved: partial); tensors rest on C15. Seed tables and extraction formulas of the real code are compared '
+         'with the model for every N up to 6/9; polynomial programs are compared with exact analytic derivatives (Jacobian, Jv, Hessian, Hv, all d-th order partials, d<=4) and smooth programs with Taylor propagation along arbitrary directions.')),
 }
 _todo = 'check under construction in this session: Lean model/theorems and correspondence not committed yet'
 NOT_APPLICABLE = {('C%02d' % i): _todo for i in range(1, 18)}
